@@ -1285,10 +1285,67 @@ def rule_blocks(out, tier):
     out.check(ok_dec, rid, "ReadBlock/decrement by one", pos_rb, "one item per call", "current_block_remaining is not decremented by exactly one per item read")
 
 
+def rule_output_order(out, tier):
+    rid = "CB3"
+    out.rule(rid, "coded_stream.h CodedOutputStream: bytes reach the underlying stream in the order they were written — every stream_.write(...) either writes the staging "
+                  "buffer itself (the flush) or is preceded on its path by FlushBuffer() with no store into the buffer in between (a direct write that overtakes "
+                  "buffered bytes puts a payload in front of its own length prefix and of everything written before it)", 1)
+    roots, rc, err = dump(out.repo, "coded_stream.h")
+    rel = BIN + "/coded_stream.h"
+    if rc != 0 or not roots:
+        out.undecided(rid, "clang/coded_stream.h", rel, "clang could not parse the header: " + err[-300:])
+        return
+    for r in roots:
+        annotate_lines(r)
+    with open(os.path.join(out.repo, BIN, "coded_stream.h")) as f:
+        _SRC[0] = f.read()
+    cls = find_class(roots, "CodedOutputStream")
+    if cls is None:
+        out.undecided(rid, "CodedOutputStream", rel, "class not found in the AST")
+        return
+    n = 0
+    for name, fn in functions_in(cls):
+        if body_of(fn) is None:
+            continue
+        cp = CxxPaths({})
+        _FULL[0] = True
+        try:
+            paths = cp.paths(fn)
+        finally:
+            _FULL[0] = False
+        sites = {}
+        for q in paths:
+            last = None  # "flush" | "store" | None since entry
+            for kind, t, _nl in q.events:
+                u = t.replace(" ", "")
+                if kind == "call" and "stream_.write(" in u:
+                    direct = "buffer_.data()" not in u and "buffer_" not in u.split("stream_.write(", 1)[1]
+                    if direct:
+                        ok = last == "flush"
+                        sites[t[:80]] = sites.get(t[:80], True) and ok
+                    continue
+                if kind == "call" and re.search(r"(?<![\w.])FlushBuffer\(", u):
+                    last = "flush"
+                elif "buffer_ptr_" in u and kind in ("call", "step", "assign") and "RemainingBufferSpace" not in u:
+                    last = "store"
+                elif kind == "call" and re.match(r"^(this->)?Write\w*\(", u):
+                    last = "store"
+        for t, ok in sorted(sites.items()):
+            n += 1
+            out.check(ok, rid, "CodedOutputStream.%s/direct stream write" % name, "%s:%d" % (rel, fn.get("_line", 0)), "preceded by FlushBuffer() on every path",
+                      "`%s` hands bytes to the stream while earlier bytes may still sit in the staging buffer: they are overtaken" % t)
+        if cp.overflow:
+            out.undecided(rid, "CodedOutputStream.%s/paths" % name, "%s:%d" % (rel, fn.get("_line", 0)), "too many paths")
+    # the flush itself is the one place that writes the buffer
+    fl = dict(functions_in(cls)).get("FlushBuffer")
+    out.check(fl is not None and "stream_" in json.dumps(fl)[:200000] and "write" in json.dumps(fl)[:200000], rid, "CodedOutputStream.FlushBuffer/writes the buffer",
+              "%s:%d" % (rel, (fl or {}).get("_line", 0)), "FlushBuffer hands the staging buffer to the stream (%d direct writes elsewhere)" % n, "FlushBuffer does not write to the stream")
+
+
 RULES = {
     "C16": [rule_coded_stream_bounds, rule_blocks],
-    "C01": [rule_coded_stream_bounds, rule_serializer_twins],
+    "C01": [rule_coded_stream_bounds, rule_serializer_twins, rule_output_order],
     "C15": [rule_cxx_header],
-    "C04": [rule_cxx_header],
+    "C04": [rule_cxx_header, rule_output_order],
     "C17": [rule_reader_overwrites, rule_blocks],
 }
